@@ -310,17 +310,67 @@ def _work_batch(task):
         signal.setitimer(signal.ITIMER_REAL, 0.0)
 
 
+def _guarded(fn, seconds=300.0):
+    import signal
+    signal.signal(signal.SIGALRM, _alarm)
+    signal.setitimer(signal.ITIMER_REAL, seconds)
+    try:
+        return fn()
+    except _Watchdog:
+        return None
+    finally:
+        signal.setitimer(signal.ITIMER_REAL, 0.0)
+
+
+def _work_entry(task):
+    """one case through the functional interface, a Sensor, a Collection, the top-level call and magpylib.core"""
+    import random
+    cls, sub = task
+    def go():
+        case = S.gen_case(random.Random(sub), cls)
+        return cls, S.judge_entries(case)
+    return _guarded(go) or (cls, [])
+
+
+def _work_multi(sub):
+    """6 interleaved sources (twin, duplicate, three classes) x 6 observers in one call"""
+    import random
+    def go():
+        mc = S.gen_multi(random.Random(sub))
+        res = S.evaluate_multi(mc)
+        judged = sum(1 for _, _, _, r in res if r["status"] in ("ok", "fail"))
+        return judged, S.judge_multi(mc, res)
+    return _guarded(go) or (0, [])
+
+
 def search(ctx, n_per_class, procs=4):
     rng = ctx.rng
     tasks = [(c, rng.getrandbits(48)) for c in S.CLASSES for _ in range(n_per_class)]
     btasks = [(c, rng.getrandbits(48)) for c in S.CLASSES for _ in range(max(3, n_per_class // 40))]
+    etasks = [(c, rng.getrandbits(48)) for c in S.CLASSES for _ in range(max(8, n_per_class // 10))]
+    mtasks = [rng.getrandbits(48) for _ in range(max(12, n_per_class // 5))]
     if procs > 1:
         with Pool(procs) as p:
             out = p.map(_work, tasks, chunksize=16)
             bout = p.map(_work_batch, btasks, chunksize=2)
+            eout = p.map(_work_entry, etasks, chunksize=4)
+            mout = p.map(_work_multi, mtasks, chunksize=2)
     else:
         out = [_work(t) for t in tasks]
         bout = [_work_batch(t) for t in btasks]
+        eout = [_work_entry(t) for t in etasks]
+        mout = [_work_multi(t) for t in mtasks]
+    for cls, fails in eout:
+        ctx.bump(f"search:entry-points:{cls}")
+        ctx.count("evaluations", 5)
+        for sig, what, rp in fails:
+            ctx.impl_fail(sig, what, rp)
+    for judged, fails in mout:
+        ctx.bump("search:multi-source-calls")
+        ctx.count("search_multi_pairs_judged", judged)
+        ctx.count("evaluations", judged)
+        for sig, what, rp in fails:
+            ctx.impl_fail(sig, what, rp)
     for cls, judged, nrows, fails in bout:
         ctx.bump(f"search:mixed-batch:{cls}")
         ctx.count("search_batch_rows_judged", judged)
@@ -434,6 +484,15 @@ def replay(ctx, obj):
         if failed:
             print(f"VIOLATION property=C01 replay={obj.get('how_to_rerun', '').split()[-1] if obj.get('how_to_rerun') else 'given'}")
         return 1 if failed else 0
+    if rp.get("kind") in ("field-entry", "field-multi"):
+        fails = S.judge_entries(rp["case"]) if rp["kind"] == "field-entry" else S.judge_multi(rp["multi"], S.evaluate_multi(rp["multi"]))
+        for sig, what, _ in fails:
+            print(f"replay: FAILS [{sig}] {what}")
+        if not fails:
+            print("replay: property holds on this input")
+        else:
+            print(f"VIOLATION property=C01 replay={obj.get('how_to_rerun', '').split()[-1] if obj.get('how_to_rerun') else 'given'}")
+        return 1 if fails else 0
     if rp.get("kind") == "field-batch":
         b = rp["batch"]
         res = S.evaluate_batch(b)
